@@ -1262,7 +1262,7 @@ def gen_sources(seed, mode="loop"):
             fl = r.choice([0, 0, SRC_HIGH, SRC_AUTOFREE])
             conserve[u] = owner
         else:
-            fl = r.choice([SRC_ONESHOT, SRC_FD_AUTOCLOSE, SRC_DUP, SRC_ONESHOT | SRC_DUP, SRC_ONESHOT | SRC_FD_AUTOCLOSE])
+            fl = r.choice([SRC_ONESHOT, SRC_FD_AUTOCLOSE, SRC_DUP, SRC_ONESHOT | SRC_DUP, SRC_ONESHOT | SRC_FD_AUTOCLOSE, SRC_DUP | SRC_FD_AUTOCLOSE])
             other.append((u, owner))
         sc.main.append(("fd_reg", owner, u, fl, sc.ud()))
         pend[u] = 0
